@@ -3,6 +3,7 @@
 From Coq Require Import List Arith Bool.
 From LokyV Require Import Lib.LedgerLib Lib.PoolLib Gen.Ledger Gen.Pool Model.Pool Proofs.PoolThm.
 From LokyV Require Model.Wake Proofs.WakeThm.
+From LokyV Require Lib.WorkerLib Gen.Worker Proofs.WorkerThm.
 Import ListNotations.
 
 (* no history without kill_workers=True ever fails a future with ShutdownExecutorError *)
@@ -46,3 +47,16 @@ Theorem C05_manager_leaves_an_empty_table :
   forall es, let s := Wake.run es Wake.ws0 in Wake.ph s = Wake.MExit -> Wake.in_table s = 0 /\ Wake.shut s = true.
 Proof. exact WakeThm.manager_leaves_an_empty_table. Qed.
 Print Assumptions C05_manager_leaves_an_empty_table.
+
+(* inside the worker (Gen/Worker.v): a sentinel makes it leave through the hand-shake: pid announced once, after the result of its
+   last task, bounded wait for the exit lock, nested executors told, clean return *)
+Theorem C05_worker_leaves_through_the_handshake :
+  forall e, WorkerLib.get e = WorkerLib.GSentinel ->
+    WorkerLib.wfin (WorkerThm.it e) = WorkerLib.FReturn /\ WorkerLib.count WorkerLib.is_pid (WorkerLib.acts (WorkerThm.it e)) = 1 /\
+    WorkerLib.before WorkerLib.is_result WorkerLib.is_pid (WorkerLib.acts (WorkerThm.it e)) = true /\
+    ~ In (WorkerLib.AWaitExit false) (WorkerLib.acts (WorkerThm.it e)).
+Proof.
+  intros e G. pose proof (WorkerThm.leaves_on_sentinel e G) as R. destruct (WorkerThm.clean_exit_iff_announced e) as (A & _ & C).
+  repeat split; auto. apply WorkerThm.handshake_wait_is_bounded. rewrite G. destruct (WorkerLib.psutil e && WorkerLib.leak e); reflexivity.
+Qed.
+Print Assumptions C05_worker_leaves_through_the_handshake.
